@@ -110,6 +110,10 @@ pub enum CharsetSpec {
     Format0(Vec<u16>),
     /// format 2: one range covering glyphs 1.. with CID = gid
     IdentityRange,
+    /// predefined charset named by its Top DICT "offset": 1 Expert, 2 ExpertSubset (0 is `IsoAdobe`)
+    Predefined(u8),
+    /// format 0 (every nLeft must be 0: one SID per glyph), 1 (nLeft u8) or 2 (nLeft u16): (first SID, nLeft)
+    Ranges { fmt: u8, ranges: Vec<(u16, u16)> },
 }
 
 #[derive(Clone, Debug)]
@@ -173,6 +177,22 @@ fn charset_bytes(cs: &CharsetSpec, nglyphs: usize) -> Vec<u8> {
             }
             o
         }
+        CharsetSpec::Predefined(_) => Vec::new(),
+        CharsetSpec::Ranges { fmt, ranges } => {
+            let covered: usize = ranges.iter().map(|r| r.1 as usize + 1).sum();
+            assert_eq!(covered + 1, nglyphs, "charset ranges must cover every glyph but .notdef");
+            let mut o = vec![*fmt];
+            for (first, n_left) in ranges {
+                o.extend_from_slice(&first.to_be_bytes());
+                match fmt {
+                    0 => assert_eq!(*n_left, 0, "format 0 lists one SID per glyph"),
+                    1 => o.push(u8::try_from(*n_left).expect("format 1 nLeft is one byte")),
+                    2 => o.extend_from_slice(&n_left.to_be_bytes()),
+                    _ => panic!("charset format {}", fmt),
+                }
+            }
+            o
+        }
         CharsetSpec::IdentityRange => {
             if nglyphs <= 1 {
                 vec![0u8]
@@ -205,7 +225,10 @@ pub fn build_cff(s: &CffSpec) -> Vec<u8> {
             d.extend(dict_int(0));
             d.extend(dict_op(OP_ROS));
         }
-        if !charset.is_empty() {
+        if let CharsetSpec::Predefined(k) = s.charset {
+            d.extend(dict_int5(k as i32));
+            d.extend(dict_op(OP_CHARSET));
+        } else if !charset.is_empty() {
             d.extend(dict_int5(charset_off));
             d.extend(dict_op(OP_CHARSET));
         }
